@@ -518,10 +518,14 @@ class Gen:
                 responses[code] = {"description": f"error {code}"}
                 rexp[code] = {"error": True}
             self.features.add("declared_errors")
-        if r.random() < 0.15:
+        if r.random() < 0.15 or (self.prof.get("p_default_content", 0.0) and r.random() < 0.5):
             responses["default"] = {"description": "unexpected"}
             rexp["default"] = {"error": True}
             self.features.add("default_response")
+            if r.random() < self.prof.get("p_default_content", 0.0) and "content" in responses.get(primary, {}):
+                responses["default"]["content"] = copy.deepcopy(responses[primary]["content"])
+                rexp["default"]["content"] = True
+                self.features.add("default_with_content")
         if r.random() < self.prof.get("p_3xx", 0.1):
             responses["302"] = {"description": "moved"}
             rexp["302"] = {"error": True}
